@@ -763,7 +763,10 @@ impl<T: Config> P2PSession<T> {
                 if self.sync_layer.current_frame() > last_frame + 1 {
                     // remember to adjust simulation to account for the fact that the player disconnected a few frames ago,
                     // resimulating with correct disconnect flags (to account for user having some AI kick in).
-                    self.disconnect_frame = last_frame + 1;
+                    // If another disconnect is already pending, keep the earlier of the two frames.
+                    if self.disconnect_frame == NULL_FRAME || last_frame + 1 < self.disconnect_frame {
+                        self.disconnect_frame = last_frame + 1;
+                    }
                 }
             }
             PlayerType::Spectator(addr) => {
